@@ -1,7 +1,7 @@
 (* C15 — archives cannot direct reads or writes outside the archive's directory.
    Model: Model/GoPath.v (path.Clean / IsAbs / Join / Dir as gopar calls them, component-wise) and
    par2's checkFilename. *)
-From Gopar Require Import Model.Base Model.GoPath Proofs.GoPathFacts.
+From Gopar Require Import Model.Base Model.GoPath Model.CRC Model.FS Model.Par1 Proofs.GoPathFacts Proofs.Par1Safety.
 Open Scope N_scope.
 
 (* a name accepted by checkFilename cleans (alone) to a non-empty stack of ordinary components:
@@ -31,6 +31,20 @@ Theorem C15_join : forall d name,
     join2 d name = render (is_abs d) (st ++ clean_stack (is_abs d) [] (split_slash d)).
 Proof. exact join_accepted. Qed.
 Print Assumptions C15_join.
+
+(* PAR1: EVERY write event of Repair - whatever the archive declares, whatever the faults - targets
+   Join(Dir(index), n) for a name n that is its own base name; apart from the three degenerate names
+   ".", "/" and ".." (which denote the directory itself or its parent: reading them fails before any
+   write, see the check), n is a bare file name and the path is the directory's components plus
+   exactly one ordinary component: a direct child of the index file's directory *)
+Theorem C15_par1_write_targets : forall md5 ix dbl fs sched p d ok,
+  In (EvWrite p d ok) (io_trace (snd (par1_repair md5 ix dbl (io_init fs sched)))) ->
+  exists n, p = join2 (dir ix) n /\
+    (n = [DOT] \/ n = [SLASH] \/ n = [DOT; DOT] \/
+     (bare_name n /\
+      p = render (is_abs (dir ix)) (n :: clean_stack (is_abs (dir ix)) [] (split_slash (dir ix))))).
+Proof. exact par1_write_targets. Qed.
+Print Assumptions C15_par1_write_targets.
 
 (* non-vacuity and the rejected spellings *)
 Example C15_examples :
